@@ -76,7 +76,9 @@ class _HyperVolume:
         #     # only consider points that dominate the reference point
         #     if weaklyDominates(point, referencePoint):
         #         relevantPoints.append(point)
-        relevantPoints = front
+        # always work on a float array: the nodes compare their cargo element-wise
+        # (lists or tuples are not translated when the reference point is the origin)
+        relevantPoints = numpy.asarray(front, dtype=float)
         # fmder
         #######
         if any(referencePoint):
@@ -88,7 +90,7 @@ class _HyperVolume:
             # fmder: Assume relevantPoints are numpy array
             # for j in xrange(len(relevantPoints)):
             #     relevantPoints[j] = [relevantPoints[j][i] - referencePoint[i] for i in xrange(dimensions)]
-            relevantPoints = numpy.asarray(relevantPoints, dtype=float) - referencePoint
+            relevantPoints = relevantPoints - referencePoint
             # fmder
             #######
 
